@@ -689,11 +689,93 @@ path "sys/control-group/request"   { capabilities = ["update"] }
 	out.Op(res, "cgstanza")
 }
 
+// c18CrossNS: the wrapping token lives in one namespace, the third party that unwraps it (token in the request body)
+// acts in another: `xns up` = wrapped in the child namespace c18ns, unwrapped by a root-namespace caller through the
+// root namespace; `xns down` = wrapped in the root namespace, unwrapped through c18ns/; `xns same` = both in c18ns.
+// "…exactly once, after which the token and its stored payload no longer exist": result
+//   first:<class>/second:<class>/token:<gone|present>/payload:<n>/wrapinfo:<n>
+func c18CrossNS(t *testing.T, out *vh.Out) {
+	p, c, root, _ := c19Setup(t)
+	defer func() { _ = c.Shutdown() }()
+	if cl, _ := vhReq(c, logical.UpdateOperation, "sys/namespaces/c18ns", root, nil); cl != "ok" {
+		t.Fatalf("namespace: %s", cl)
+	}
+	if cl, _ := vhReq(c, logical.UpdateOperation, "c18ns/sys/mounts/rec", root, map[string]any{"type": "vhrec"}); cl != "ok" {
+		t.Fatalf("ns mount: %s", cl)
+	}
+	for _, pth := range []string{"rec/data/a", "c18ns/rec/data/a"} {
+		if cl, _ := vhReq(c, logical.UpdateOperation, pth, root, map[string]any{"value": c18Canary}); cl != "ok" {
+			t.Fatalf("seed write %s: %s", pth, cl)
+		}
+	}
+	out.Reset()
+	out.Op("ok", "wseq")
+	for _, dir := range []string{"up", "down", "same", "up", "down"} {
+		wrapPath, unwrapPath := "c18ns/rec/data/a", "sys/wrapping/unwrap"
+		switch dir {
+		case "down":
+			wrapPath, unwrapPath = "rec/data/a", "c18ns/sys/wrapping/unwrap"
+		case "same":
+			unwrapPath = "c18ns/sys/wrapping/unwrap"
+		}
+		req := &logical.Request{Operation: logical.ReadOperation, Path: wrapPath, ClientToken: root, WrapInfo: &logical.RequestWrapInfo{TTL: time.Hour}}
+		req.SetTokenEntry(nil)
+		resp, err := c.HandleRequest(vhRootCtx(), req)
+		if err != nil || resp == nil || resp.WrapInfo == nil || resp.WrapInfo.Token == "" {
+			out.Op("nowrap:"+vhClass(resp, err), "xns", dir)
+			continue
+		}
+		w := resp.WrapInfo.Token
+		te, err := c.tokenStore.lookupInternal(vhRootCtx(), w, false, true)
+		if err != nil || te == nil {
+			t.Fatalf("xns: wrapping token lookup: %v", err)
+		}
+		cub := "/" + te.CubbyholeID + "/"
+		unwrap := func() string {
+			r := &logical.Request{Operation: logical.UpdateOperation, Path: unwrapPath, ClientToken: root, Data: map[string]any{"token": w}}
+			r.SetTokenEntry(nil)
+			resp, err := c.HandleRequest(vhRootCtx(), r)
+			cl := vhClass(resp, err)
+			if cl != "ok" {
+				cl = "refused"
+			}
+			if c18Payload(resp, c18Canary) {
+				cl += "+payload"
+			}
+			return cl
+		}
+		first := unwrap()
+		second := unwrap()
+		tokState := "gone"
+		if te2, _ := c.tokenStore.lookupInternal(vhRootCtx(), w, false, true); te2 != nil {
+			tokState = "present"
+		}
+		pl, wi := 0, 0
+		for _, k := range p.AllKeys() {
+			if strings.Contains(k, cub) && strings.HasSuffix(k, "/response") {
+				pl++
+			}
+			if strings.Contains(k, cub) && strings.HasSuffix(k, "/wrapinfo") {
+				wi++
+			}
+		}
+		res := vh.Sprintf("first:%s/second:%s/token:%s/payload:%d/wrapinfo:%d", first, second, tokState, pl, wi)
+		switch {
+		case strings.Contains(second, "payload"):
+			res += "!VIOL:the payload was revealed by a second unwrap (namespaces: " + dir + ")#payload-revealed-twice"
+		case strings.Contains(first, "payload") && (tokState != "gone" || pl+wi > 0):
+			res += "!VIOL:after the one successful third-party unwrap across namespaces (" + dir + ") the wrapping token or its stored payload still exists: token " + tokState + vh.Sprintf(", %d payload and %d wrapinfo entries", pl, wi) + "#wrapping-token-survives-unwrap"
+		}
+		out.Op(res, "xns", dir)
+	}
+}
+
 func TestVerifC18(t *testing.T) {
 	out := vh.Open()
 	defer out.Close()
 	rng := vh.NewRand(vh.Seed())
 	c18ControlGroup(t, out)
+	c18CrossNS(t, out)
 	c18Sequential(t, out, rng.Fork(1<<41))
 	histRounds := 12
 	if vh.Thorough() {
